@@ -19,7 +19,7 @@ template <class E> fmm::Segment specxSegment(long nQ, long nT, bool tsan) {
         if (c.blockSize > 8 && r.coin(0.6)) c.blockSize = 1 + long(r.below(6));
         const auto sc = sch::schedulesFor(r, th, tsan);
         res.desc = fmm::confDesc<E>(c) + " executor=TbfSmSpecxAlgorithm(mock runtime) schedules=" + vh::str(sc.size());
-        sch::ompSingle<E, TbfSmSpecxAlgorithm>(c, sc, res, "c03-specx", tsan);
+        sch::ompSingle<E, TbfSmSpecxAlgorithm>(c, sc, res, "c03-specx", tsan, true, false);
         res.sig = std::string("specx:") + fmm::confSig<E>(c, vh::mix(c.seed, 9)); res.nontrivial = res.events["tasks-executed"] > long(sc.size()) * 3;
     };
     return s;
@@ -33,7 +33,7 @@ template <class E> fmm::Segment specxTsmSegment(long nQ, long nT, bool tsan) {
         if (c.blockSize > 8 && r.coin(0.6)) c.blockSize = 1 + long(r.below(6));
         const auto sc = sch::schedulesFor(r, th, tsan);
         res.desc = fmm::tsmDesc<E>(c) + " executor=TbfSmSpecxAlgorithmTsm(mock runtime) schedules=" + vh::str(sc.size());
-        sch::ompTsm<E, TbfSmSpecxAlgorithmTsm>(c, sc, res, "c09-specx", tsan);
+        sch::ompTsm<E, TbfSmSpecxAlgorithmTsm>(c, sc, res, "c09-specx", tsan, true, false);
         res.sig = "specx-tsm:D" + vh::str(E::Cfg::Dim) + "," + vh::str(vh::mix(c.seed, 10)); res.nontrivial = res.events["tasks-executed"] > long(sc.size()) * 3;
     };
     return s;
